@@ -437,6 +437,23 @@ func init() {
 			return fmt.Sprint(int(st.Lookup(rune(f.Int("r")))))
 		}))
 	}
+	// direct predicate "Format0.Lookup returns a glyph for every rune" (the Lean side answers
+	// every non-model total.* line with the constant "total"); data defaults to Data[i] = i.
+	// Generated only for r >= 0; `total.cmapdir-lookup0 r=-1` is the known finding.
+	ops["total.cmapdir-lookup0"] = func(f Fields) string {
+		return guard(func() string {
+			st := &cmap.Format0{}
+			if f["data"] != "" {
+				copy(st.Data[:], f.Hex("data"))
+			} else {
+				for i := range st.Data {
+					st.Data[i] = byte(i)
+				}
+			}
+			_ = st.Lookup(rune(f.Int("r")))
+			return "total"
+		})
+	}
 	ops["tmcmapdir.lookup16"] = func(f Fields) string {
 		return totalCanonPanic(guard(func() string {
 			m := cmap.Format4{}
@@ -706,6 +723,11 @@ func init() {
 				}
 				return x
 			}, "v"+g)))
+		}
+		for k := 0; k < budget/6; k++ {
+			rr := Pick(r, []int{0, 1, 255, 256, 65535, 0x10FFFF, 2147483647, r.Intn(256), r.Intn(0x110000)})
+			c.Case(Direct, "total.cmapdir-lookup0", fmt.Sprintf("r=%d", rr), true)
+			c.Stat("tmcmapdir:lookup0_direct", fmt.Sprint("r>255:", rr > 255))
 		}
 		for k := 0; k < budget/6; k++ {
 			var parts []string
